@@ -70,6 +70,13 @@ def wire(rng, classes, u, v, position, counter):
         U.properties[key] = Property(Not(V))
     else:  # nested several levels deep
         U.properties[key] = Property(Array(AnyOf(Element(properties={"z": Property(Not(Array([V])))}), Element())))
+    # a JSON property may be *named* like the keyword the dependency sits under: the traversal must still read the keyword
+    # (decided by the edge's number, not by the PRNG, so that a recorded graph replays exactly)
+    if position in ("patternProperties", "additionalProperties", "propertyNames", "dependencies") and counter % 2 == 0:
+        U.properties[position] = Property(Element())
+    elif counter % 7 == 3:
+        names = ["properties", "items", "default", "required", "elements", "element", "contains"]
+        U.properties[names[counter % len(names)]] = Property(Element())
 
 
 def own_children(el, seen=None):
